@@ -125,11 +125,13 @@ pub struct StateScen {
     pub max_events: usize,
     pub bursts: Vec<B>,
     pub delay_polls: bool,
+    /// a transport write may find the transport not ready once (a deviation)
+    pub pend_writes: bool,
 }
 
 impl StateScen {
     pub fn to_json(&self) -> Value {
-        json!({"state_service": true, "smol": self.smol, "max_conns": self.max_conns, "max_events": self.max_events, "delay_polls": self.delay_polls,
+        json!({"state_service": true, "smol": self.smol, "max_conns": self.max_conns, "max_events": self.max_events, "delay_polls": self.delay_polls, "pend_writes": self.pend_writes,
             "bursts": self.bursts.iter().map(|b| match b { B::Watch => json!("Watch"), B::Get => json!("Get"), B::Sets(n) => json!(n), B::OnceGet => json!("OnceGet"), B::Hangup => json!("Hangup") }).collect::<Vec<_>>()})
     }
     pub fn from_json(v: &Value) -> Option<StateScen> {
@@ -138,6 +140,7 @@ impl StateScen {
             max_conns: v["max_conns"].as_u64()? as usize,
             max_events: v["max_events"].as_u64()? as usize,
             delay_polls: v["delay_polls"].as_bool()?,
+            pend_writes: v["pend_writes"].as_bool().unwrap_or(false),
             bursts: v["bursts"]
                 .as_array()?
                 .iter()
@@ -200,7 +203,7 @@ impl Harness for StateScen {
         let mut conns: Vec<ConnS> = (0..n).map(|i| ConnS { wire: Wire::new(i, Some(cx.clone())), asked: vec![], watching: false, gone: false }).collect();
         for c in &conns {
             // a write may find the transport not ready once (a deviation), then goes through
-            c.wire.0.borrow_mut().write_pend_dev = self.max_conns >= 3 && !self.bursts.contains(&B::Hangup);
+            c.wire.0.borrow_mut().write_pend_dev = self.pend_writes;
             listener.connect(c.wire.clone());
         }
         let mut next_v = 0u32;
